@@ -576,36 +576,21 @@ theorem lowerOrDigit_identChar' : ∀ c : UInt8, (isLower c || isDigit c) = true
 /-- `<pkg>Interface` is a usable identifier -/
 theorem validName_ifaceName (n : Bytes) (h : ifaceNameShape n = true) :
     validName (pkgName n ++ str "Interface") = true := by
-  have hi : isGoIdent (pkgName n) = true ∧ (pkgName n).all (fun c => isLower c || isDigit c) = true := by
-    cases n with
-    | nil => simp [ifaceNameShape] at h
-    | cons c s =>
-      simp only [ifaceNameShape, Bool.and_eq_true] at h
-      obtain ⟨h1, h2, h3⟩ := letter_facts c h.1
-      have ht := pkgName_tail_chars s h.2
-      rw [pkgName_cons_keep c s h1 h2]
-      refine ⟨?_, by simp [h3, ht]⟩
-      simp only [isGoIdent, Bool.and_eq_true]
-      refine ⟨lower_identStart _ h3, ?_⟩
-      rw [List.all_eq_true] at ht ⊢
-      intro x hx
-      exact lowerOrDigit_identChar x (ht x hx)
-  obtain ⟨h1, h2⟩ := hi
+  obtain ⟨c, r, e, hc, hr⟩ := pkgName_shape n h
   simp only [validName, Bool.and_eq_true, Bool.not_eq_true', bne_iff_ne, ne_eq]
   refine ⟨⟨?_, ?_⟩, ?_⟩
-  · cases hp : pkgName n with
-    | nil => simp [hp, isGoIdent] at h1
-    | cons c r =>
-      rw [hp] at h1
-      simp only [isGoIdent, Bool.and_eq_true, List.cons_append, List.all_append] at h1 ⊢
-      exact ⟨h1.1, h1.2, by decide⟩
+  · rw [e]
+    simp only [isGoIdent, Bool.and_eq_true, List.cons_append, List.all_append]
+    refine ⟨lower_identStart c hc, ?_, by decide⟩
+    rw [List.all_eq_true] at hr ⊢
+    exact fun x hx => pkgChar_identChar x (hr x hx)
   · rw [← Bool.not_eq_true]
     intro hk
     have := keyword_all_lower _ (List.contains_iff_mem.mp hk)
     rw [List.all_append, Bool.and_eq_true] at this
     exact absurd this.2 (by decide)
-  · intro e
-    have : (pkgName n ++ str "Interface").length = 1 := by rw [e]; rfl
+  · intro e'
+    have : (pkgName n ++ str "Interface").length = 1 := by rw [e']; rfl
     simp [str] at this
 
 /-- **typesOk**: every struct type and every parameter list of the emitted file has valid, distinct names -/
